@@ -77,10 +77,63 @@ func shareScenarios(tier string) []clustermc.Scenario {
 	return out
 }
 
+// shareGangFaultScenarios: fractional GANGS (several allocations committed by one statement) next to
+// single sharers, explored with every single bind failing in turn - a failed bind in the middle of
+// a statement must not free what the statement's earlier, successful binds occupy.
+func shareGangFaultScenarios(tier string) []clustermc.Scenario {
+	menu := []menuItem{
+		{tag: "pend-gang2-f5", queue: "qa", pc: "p50", min: 2, pods: []world.PodSpec{{Shape: shF5}, {Shape: shF5}}},
+		{tag: "pend-gang2-f3", queue: "qa", pc: "p50", min: 2, pods: []world.PodSpec{{Shape: shF3}, {Shape: shF3}}},
+		{tag: "pend-gang3-f5", queue: "qa", pc: "p50", min: 3, pods: []world.PodSpec{{Shape: shF5}, {Shape: shF5}, {Shape: shF5}}},
+		{tag: "pend-gang2-f5+g1", queue: "qa", pc: "p50", min: 2, pods: []world.PodSpec{{Shape: shF5}, {Shape: shG1}}},
+		{tag: "pend-f5", queue: "qa", pc: "p50", pods: []world.PodSpec{{Shape: shF5}}},
+		{tag: "pend-f7", queue: "qa", pc: "p50", pods: []world.PodSpec{{Shape: shF7}}},
+		{tag: "pend-mf2", queue: "qa", pc: "p50", pods: []world.PodSpec{{Shape: shMF2}}},
+		{tag: "run-f5", queue: "qa", pc: "p50", pods: []world.PodSpec{{Shape: shF5, State: world.StRunning, Node: "n1"}}},
+		{tag: "run-f3", queue: "qa", pc: "p50", pods: []world.PodSpec{{Shape: shF3, State: world.StRunning, Node: "n1"}}},
+		{tag: "term-f5", queue: "qa", pc: "p50", pods: []world.PodSpec{{Shape: shF5, State: world.StTerminating, Node: "n1"}}},
+	}
+	variant := &clustermc.Family{
+		Property:   "C02",
+		Depth:      func(string) int { return 2 },
+		FaultDepth: func(tier string) int { return 1 },
+		Env:        clustermc.EnvOpts{BindOK: true, Terminate: true},
+		Oracles:    []clustermc.Oracle{oracle.CapacityOracle("C02")},
+	}
+	lays := []nodeLayout{
+		{"1n-2gpu", []world.NodeOpt{{Name: "n1", CPU: "8", Mem: "8Gi", Pods: 110, GPUs: 2, GPUMemMiB: 40000}}},
+		{"1n-3gpu", []world.NodeOpt{{Name: "n1", CPU: "8", Mem: "8Gi", Pods: 110, GPUs: 3, GPUMemMiB: 40000}}},
+	}
+	k := 3
+	if tier == "thorough" {
+		k = 4
+	}
+	var out []clustermc.Scenario
+	for _, lay := range lays {
+		for _, pick := range multisetsUpTo(len(menu), k) {
+			gang := false
+			for _, i := range pick {
+				if menu[i].min >= 2 {
+					gang = true
+				}
+			}
+			if !gang {
+				continue
+			}
+			tags := ""
+			for _, i := range pick {
+				tags += menu[i].tag + ","
+			}
+			out = append(out, clustermc.Scenario{Name: "gangfault:" + lay.tag + ":" + tags, World: buildMenuWorld(lay, menu, pick), Configs: []schedrun.Config{{}, {Placement: "spread"}}, Variant: variant})
+		}
+	}
+	return out
+}
+
 func C02() *clustermc.Family {
 	return &clustermc.Family{
 		Property:  "C02",
-		Scenarios: shareScenarios,
+		Scenarios: func(tier string) []clustermc.Scenario { return append(shareScenarios(tier), shareGangFaultScenarios(tier)...) },
 		Depth: func(tier string) int {
 			if tier == "thorough" {
 				return 4
